@@ -49,6 +49,20 @@ PROPS = {
             "C08_super_depth_legacy_refuted": [],
             "C08_import_of_xsuper_repaired": [],
             "C08_module_import_through_super_repaired": [],
+            "C08_vm_call_function": [],
+            "C08_vm_return": [],
+            "C08_vm_return_to_caller": [],
+            "C08_vm_params_are_locals": [],
+            "C08_param_binding": [],
+            "C08_call_executes_designated_body": [],
+            "C08_call_card_emits_pair": [],
+            "C08_example_call_binding": [],
+            "C08_example_call_nil": [],
+            "C08_example_call_surplus": [],
+            "C08_example_short_call": [],
+            "C08_example_missing_argument": [],
+            "C08_example_call_main_not_found": [],
+            "C08_example_call_static": [],
         },
         n_quick=320, n_thorough=3000,
         gates=["obs.ran", "obs.err.InvalidJump", "obs.err.SuperLimitReached", "obs.err.DuplicateModule", "obs.err.NoMain",
@@ -94,6 +108,22 @@ PROPS = {
             "instructions of the program are the subject of C10",
             "label distinctness (32-bit keys of function and closure labels pairwise distinct) is the decidable hypothesis "
             "label_keys_distinct of the label theorems; main has no label (a static call of main compiles but fails at run time: known finding N-C08-3, C08_main_has_no_label)",
+            "run-time half, proved on the VM model (Vm.v; tied to vm.rs / instr_execution.rs by the VM, C03, C18 and C08 correspondence "
+            "streams): C08_vm_call_function (exact outcome of CallFunction on a function object / closure: frame {src = call, dst = next "
+            "instruction, offset = height - arity, closure}, ip := labels[handle]; MissingArgument when the WHOLE stack holds fewer than "
+            "arity values, CallStackOverflow, ProcedureNotFound), C08_vm_return / C08_vm_return_to_caller, C08_vm_params_are_locals, "
+            "C08_param_binding (declared parameter m = local n-1-m = the (m+1)-th supplied value from the end), "
+            "C08_call_executes_designated_body (an adjacent FunctionPointer; CallFunction pair of a compiled module continues at the "
+            "first byte of the code of the function spec_resolve designates; non-main targets, label_keys_distinct_module)",
+            "not proved of the run-time half: that the FunctionPointer; CallFunction pair a Call card appends (C08_call_card_emits_pair) "
+            "is still adjacent in the returned program (later emission only prepends and patches jump operands, but this is proved "
+            "only for the call skeleton: C08_call_resolves); that the innermost locals list is empty where a "
+            "function body starts (hypothesis of C08_param_binding's compiler side); that the callee's body keeps the caller's part of "
+            "the stack intact up to its Return (frame discipline of compiled code, the same gap as C18_reentry_balanced_partial)",
+            "a call with fewer arguments than parameters is not an error unless the whole value stack is shorter than the arity: the "
+            "callee's frame then reaches into the caller's slots (C08_example_short_call: the callee reads and the Return destroys the "
+            "caller's local); the reference semantics (C01) leaves such calls unspecified; generated C08 cases always pass exactly "
+            "arity arguments",
         ],
     ),
     "C10": dict(
